@@ -15,6 +15,7 @@ struct RefPeer
 	size_t seen = 0; std::vector<std::string> all_app_ids; bool sent_logout = false; int resend_answers = 0, gapfills = 0, my_resend_requests = 0;
 	int cut_after = -1; bool cut_done = false;   // fault: the link drops after this many frames of the next resend answer
 	int live_before = 0;                         // legal but unusual: new application messages go out ahead of the next resend answer
+	int live_after_logon = 0;                    // ... or right after the logon exchange, before the counterparty has read the session's ResendRequest
 	explicit RefPeer(World& world) : w(world) {}
 
 	std::string frame(const std::string& type, unsigned seq, const Flds& body, bool possdup, const std::string& orig)
@@ -63,6 +64,8 @@ struct RefPeer
 		{
 			const Msg& m = w.out[seen].m; unsigned seq = (unsigned)m.num(34);
 			if (w.out[seen].conn != w.conn_no) continue;
+			// (session is the acceptor) its Logon answer has arrived: the counterparty may send before it reads what follows
+			if (m.type() == "A" && logged_on) for (; live_after_logon > 0; --live_after_logon) { send("D", Peer::order_body("A" + std::to_string(out_next))); sim::count("model_live_message_right_after_logon"); did = true; }
 			if (m.type() == "2") { on_resend_request((unsigned)m.num(7), (unsigned)m.num(16)); did = true; if (cut_done) return true; }
 			if (m.type() == "1") { send("0", { {112, m.get(112)} }); did = true; }
 			// lenient receive side: never logs the session out
@@ -90,6 +93,7 @@ struct C20 : drv::Harness
 		p.knobs["pers"] = rng.chance(0.6) ? 2 : 1;
 		p.knobs["hb"] = 30;
 		p.knobs["final_reconnect"] = rng.chance(0.5);
+		p.knobs["final_live_after_logon"] = rng.chance(0.4) ? rng.range(1, 2) : 0;
 		int n = (int)rng.range(2, thorough ? 30 : 14);
 		for (int i = 0; i < n; ++i)
 		{
@@ -99,7 +103,8 @@ struct C20 : drv::Harness
 			else if (w < 58) p.ops.push_back(Op("app"));
 			else if (w < 68) p.ops.push_back(Op("disconnect"));
 			else if (w < 71) p.ops.push_back(Op("cut_next_resend", { rng.range(0, 3) }));
-			else if (w < 74) p.ops.push_back(Op("live_next_resend", { rng.range(1, 2) }));
+			else if (w < 73) p.ops.push_back(Op("live_next_resend", { rng.range(1, 2) }));
+			else if (w < 75) p.ops.push_back(Op("live_after_logon", { rng.range(1, 2) }));
 			else if (w < 88) p.ops.push_back(Op("reconnect", { rng.chance(0.3) }));     // arg: restart the session process (file store) instead of just reconnecting
 			else p.ops.push_back(Op("silence", { rng.range(10, 3000) }));
 		}
@@ -150,6 +155,8 @@ struct C20 : drv::Harness
 			if (m.cut_done) { m.cut_done = false; ++disconnects; w.settle(); w.drop_connection(); return; }
 			m.send("A", { {98, "0"}, {108, std::to_string(w.hb)} }, true);
 			m.logged_on = true;
+			// (session is the initiator) the counterparty's Logon answer may be followed at once by new messages
+			if (w.initiator) for (; m.live_after_logon > 0; --m.live_after_logon) { m.send("D", Peer::order_body("A" + std::to_string(m.out_next))); sim::count("model_live_message_right_after_logon"); }
 			exchange();
 			check_alive("after the logon exchange (counterparty Logon carried " + std::to_string(m.out_next - 1) + ")");
 		};
@@ -164,6 +171,7 @@ struct C20 : drv::Harness
 			else if (op.k == "silence") sim::advance(op.arg(0) * 1000000ll);
 			else if (op.k == "cut_next_resend") m.cut_after = (int)op.arg(0);
 			else if (op.k == "live_next_resend") m.live_before = (int)op.arg(0);
+			else if (op.k == "live_after_logon") m.live_after_logon = (int)op.arg(0);
 			else if (op.k == "disconnect") { if (m.connected) { m.connected = false; m.logged_on = false; ++disconnects; w.settle(); w.drop_connection(); sim::count("fault_disconnect"); } }
 			else if (op.k == "reconnect") { if (!m.connected) { ++reconnects; connect(op.arg(0) != 0); sim::count(op.arg(0) ? "fault_session_restart" : "reconnect"); } }
 			if (m.connected) { exchange(); check_alive("after op#" + std::to_string(i) + " " + op.k); }
@@ -176,7 +184,7 @@ struct C20 : drv::Harness
 			{
 				// the history ends with a clean reconnect: the counterparty's Logon number is all the session gets to learn what it
 				// missed, the reference counterparty replays whatever is asked for, nothing else is sent. That alone must recover.
-				m.live_before = 0;
+				m.live_before = 0; m.live_after_logon = (int)p.knob("final_live_after_logon");
 				if (m.connected) { m.connected = false; m.logged_on = false; ++disconnects; w.settle(); w.drop_connection(); }
 				++reconnects; connect(false);
 				if (r.v.empty() && w.ses && !w.ses->terminated())
@@ -220,7 +228,7 @@ struct C20 : drv::Harness
 		if (op.k == "silence") v.push_back(Op("silence", { 10 }));
 		return v;
 	}
-	std::vector<std::pair<std::string, int64_t>> knob_floor() const override { return { { "short_read_pm", 0 }, { "short_write_pm", 0 }, { "eagain_pm", 0 }, { "dribble_pm", 0 }, { "pm", 0 }, { "pers", 1 }, { "final_reconnect", 0 } }; }
+	std::vector<std::pair<std::string, int64_t>> knob_floor() const override { return { { "short_read_pm", 0 }, { "short_write_pm", 0 }, { "eagain_pm", 0 }, { "dribble_pm", 0 }, { "pm", 0 }, { "pers", 1 }, { "final_reconnect", 0 }, { "final_live_after_logon", 0 } }; }
 };
 
 int main(int argc, char **argv)
